@@ -632,6 +632,14 @@ def tasks():
     out += [ContractTask(c, regf_r) for c in R_CONTRACTS]
     out += [ContractTask(c, regf_s) for c in S_CONTRACTS]
     out.append(FuncTask("stable-fields", stable_fields_task, True, "frame"))
+    # byte-exactness also rests on (a) the download file being opened fresh (truncating "wb") at destination+".tmp"
+    # - C05's _handle_file/_handle_directory contracts - and (b) the record pipe rejecting replayed / reordered
+    # records - C06's _decrypt_record contract.  The same tasks are run here so that this check sees their failure.
+    from . import c05, c06
+    out += [t for t in c05.tasks() if getattr(t, "contract", None) is not None and
+            t.contract.target.endswith(("Receiver._handle_file", "Receiver._handle_directory"))]
+    out += [t for t in c06.tasks() if getattr(t, "contract", None) is not None and
+            t.contract.target.endswith(("Connection._decrypt_record", "Connection.dataReceivedRECORDS"))]
     return out
 
 
